@@ -3,11 +3,12 @@ package yubiagent
 //vsym:pkg github.com/theparanoids/ysshra/agent/yubiagent
 //vsym:include yubiagent/ctor.go || yubiagent/ctor_bb.go
 //vsym:entry H13_listslots
+//vsym:entry H13_listslots_order
 //vsym:entry H13_remote
 //vsym:model os/exec.Command m13Command
 //vsym:model (*os/exec.Cmd).Output m13Output
 //vsym:replay same-harness
-//vsym:expect-cover C13.slots.none C13.slots.one C13.slots.tool-error C13.remote.refused
+//vsym:expect-cover C13.slots.three C13.slots.none C13.slots.one C13.slots.tool-error C13.remote.refused
 //vsym:thorough-expect-cover C13.slots.two
 //vsym:bound H13_listslots: tool output of 0..8 (thorough 0..15) symbolic bytes, or a tool failure
 //vsym:assume os/exec is modelled: Command/Output return the harness-chosen output or error and log the invocation; replay uses a real script on disk
@@ -53,6 +54,40 @@ func h13Tool() string {
 	p := filepath.Join(dir, "yubico-piv-tool")
 	os.WriteFile(p, []byte(script), 0o700)
 	return p
+}
+
+// H13_listslots_order: several slots, reported in the order the tool printed
+// them (realistic status output: header lines, indented detail lines, a last
+// line with or without newline).
+func H13_listslots_order() {
+	m13Fail = false
+	a, b, c := vNondetString("slot-a", 2), vNondetString("slot-b", 2), vNondetString("slot-c", 2)
+	for _, s := range []string{a, b, c} {
+		vAssume(vAnd(s[0] != '\n', s[1] != '\n'))
+	}
+	out := "Version:\t5.2.7\nSlot " + a + ":\t\n\tAlgorithm:\tRSA2048\n\tSlot usage: x\nSlot " + b + ":\n\tAlgorithm:\tECCP256\nSlot " + c + ":"
+	if vChoose(2, "final-newline") == 1 {
+		out += "\n"
+	}
+	m13Out = []byte(out)
+	tool := "/model/yubico-piv-tool"
+	if vIsNative() {
+		tool = h13Tool()
+		defer os.RemoveAll(filepath.Dir(tool))
+	}
+	s := ygNewServer(nil, tool, false)
+	var slots []string
+	var err error
+	crashed := vCatch(func() { slots, err = s.ListSlots() })
+	vAssert(!crashed && err == nil, "C13.listslots-ok")
+	if crashed || err != nil {
+		return
+	}
+	vAssert(len(slots) == 3, "C13.listslots-count")
+	if len(slots) == 3 {
+		vAssert(vAnd(vEqString(slots[0], a), vAnd(vEqString(slots[1], b), vEqString(slots[2], c))), "C13.listslots-two-chars-in-order")
+	}
+	vReach("C13.slots.three")
 }
 
 func H13_listslots() {
